@@ -297,8 +297,10 @@ def main(argv=None):
         'wall_s': round(time.time() - t0, 2),
         'violations': len(violations),
     }
-    os.makedirs(os.path.join(HERE, 'evidence'), exist_ok=True)
-    with open(os.path.join(HERE, 'evidence', pid + '.json'), 'w') as f:
+    # VERIF_EVIDENCE_DIR: used only by tools/seedcheck_wt.sh so that evaluating a seeded change never overwrites evidence
+    evdir = os.environ.get('VERIF_EVIDENCE_DIR') or os.path.join(HERE, 'evidence')
+    os.makedirs(evdir, exist_ok=True)
+    with open(os.path.join(evdir, pid + '.json'), 'w') as f:
         json.dump(ev, f, indent=1, default=str)
 
     print('%s tier=%s cases=%d paths=%d obligations=%d %s solver=%.1fs wall=%.1fs' % (
